@@ -69,7 +69,10 @@ def run(ctx):
       for hw, hm, hx, hd in itertools.product([False, True], repeat=4):
         for k in ks:
           for mode in ("quantiles", "uniform"):
-            ws = [(1,) * n] if not hw else [tuple(1 + ((i + sum(vals)) % 2) for i in range(n)), (2,) * n]
+            # weighted: mixed {1,2}, constant, and one dominating entry (several quantiles then fall on the same value
+            # and the repeated-index repair has to move more than one of them)
+            ws = [(1,) * n] if not hw else [tuple(1 + ((i + sum(vals)) % 2) for i in range(n)), (2,) * n,
+                                             tuple(50 if i == (sum(vals) + k) % n else 1 for i in range(n))]
             for w in ws:
               red = "mean" if (sum(vals) + k) % 2 else "sum"
               inp = mk(vals, w, hw, 1 if hm else None, 2 if hx else None, 0 if hd else None, k, mode, red)
@@ -94,6 +97,8 @@ def run(ctx):
       vals = np.full(n, int(rng.integers(-50, 50)))             # constant
     hw = bool(rng.random() < 0.5)
     w = rng.integers(1, 5, size=n) if hw else None
+    if hw and j % 3 == 0:
+      w[rng.integers(0, n, size=int(rng.integers(1, 3)))] = int(rng.choice([40, 1000]))      # dominating weights
     cmin = int(rng.integers(-60, 60)) if rng.random() < 0.4 else None
     cmax = (int(rng.integers(0, 120)) + (cmin or 0)) if rng.random() < 0.4 else None
     dflt = int(vals[0]) if rng.random() < 0.3 else None
